@@ -270,14 +270,33 @@ Definition goose_text (content : bytes) : option bytes :=
   | GUnexpectedPragma => None
   end.
 
-(** DBMateFile.StmtDecls *)
+(** strings.Fields(s)[0]: the first white-space separated field ([] when there is none) *)
+Fixpoint take_field (s : bytes) : bytes :=
+  match s with
+  | [] => []
+  | a :: t =>
+    if sp1 a then [] else
+    match t with
+    | b :: t2 =>
+      if sp2 a b then [] else
+      match t2 with
+      | c :: _ => if sp3 a b c then [] else a :: take_field t
+      | [] => a :: take_field t
+      end
+    | [] => [a]
+    end
+  end.
+Definition first_field (s : bytes) : bytes := take_field (trim_left_space s).
+
+(** DBMateFile.StmtDecls (fix C07-dbmate-directive-options: the direction is the first field after
+    "-- migrate:", options such as transaction:false may follow) *)
 Fixpoint dbmate_loop (ls : list bytes) (isup : bool) (acc : list bytes) : list bytes :=
   match ls with
   | [] => rev acc
   | line :: rest =>
     let pr :=
       if has_prefix line S_DBMATE then
-        let arg := trim_space (trim_prefix line S_DBMATE) in
+        let arg := first_field (trim_prefix line S_DBMATE) in
         if bytes_eqb arg S_up then Some true
         else if bytes_eqb arg S_down then None
         else Some isup
